@@ -201,14 +201,14 @@ def run_property(prop_id, cfg, tier, seed):
         "solver": "cvc5 1.0.3 --strings-exp, one-shot per query, tlimit %d ms" % tl,
         "solver_queries": total["queries"], "solver_s": round(total["solver_s"], 1), "mir_steps": total["steps"],
         "harnesses": hs, "kani": kres,
-        "functions_encoded": sorted(f for f in fn_reached if not f.startswith(("vstd::", "futures::", "harness::", "bytes::", "tokio::", "aws_sdk_s3::", "aws_config::", "bincode::", "atomic_float::")))[:400],
-        "shim_functions_encoded": len([f for f in fn_reached if f.startswith(("vstd::", "futures::", "bincode::", "atomic_float::", "bytes::", "tokio::", "aws_sdk_s3::", "aws_config::"))]),
+        "functions_encoded": sorted(f for f in fn_reached if not f.startswith(("vstd::", "futures::", "harness::", "bytes::", "tokio::", "aws_sdk_s3::", "aws_config::", "bincode::", "atomic_float::", "tiny_http::")))[:400],
+        "shim_functions_encoded": len([f for f in fn_reached if f.startswith(("vstd::", "futures::", "bincode::", "atomic_float::", "bytes::", "tokio::", "aws_sdk_s3::", "aws_config::", "tiny_http::"))]),
         "slicer": built["info"], "bounds": cfg.get("bounds", {}).get(tier, cfg.get("bounds", "")),
         "outside_bounds": cfg.get("outside", ""),
         "known_findings_matched": sorted(known_hit), "inconclusive": inconclusive,
         "samples": [s for h in hs for s in h.get("samples", [])][:8] or [{"note": "no completed path"}],
         "exhaustive": all(h["exhaustive"] for h in hs) and not inconclusive,
-        "trusted_base": ["rustc nightly MIR dump", "vf/slicer.py rewrites", "shims (vstd, futures, log, bincode, atomic_float, thread_id, bytes, tokio, aws_sdk_s3, aws_config)", "vf/interp.py + vf/models.py", "cvc5"],
+        "trusted_base": ["rustc nightly MIR dump", "vf/slicer.py rewrites", "shims (vstd, futures, log, bincode, atomic_float, thread_id, bytes, tokio, aws_sdk_s3, aws_config, tiny_http)", "vf/interp.py + vf/models.py", "cvc5"],
         "explanation": cfg.get("explanation", ""),
     }
     ev["wall_s"] = round(time.time() - t0, 1)
